@@ -240,6 +240,15 @@ func Inet(t *rapid.T, label string) *primitive.Inet {
 
 func UUID(t *rapid.T, label string) *primitive.UUID {
 	var u primitive.UUID
+	switch rapid.IntRange(0, 9).Draw(t, label+"/boundary") {
+	case 0: // the nil UUID
+		return &u
+	case 1:
+		for i := range u {
+			u[i] = 0xff
+		}
+		return &u
+	}
 	copy(u[:], rapid.SliceOfN(rapid.Byte(), 16, 16).Draw(t, label))
 	return &u
 }
